@@ -258,13 +258,17 @@ def pop_op(rng, st, op):
         # part that no longer exist are dropped)
         st.fixed = set(new.index(a) for a in fixed_names if a in new)
         return 'set_n_ids(%d)' % k
+    forced = None
+    if op in ('set_dim_names_long', 'set_parameter_names_custom'):
+        forced = op
+        op = op.rsplit('_', 1)[0]
     if op == 'set_dim_names':
-        if rng.random() < 0.3:
+        if forced is None and rng.random() < 0.3:
             m.set_dim_names(None)
             st.dim_reset_pending = True
             return 'set_dim_names(reset)'
         # (sometimes names as long as 'compartment.variable Sigma base')
-        stem = 'd%d' if rng.random() < 0.7 else \
+        stem = 'd%d' if (forced is None and rng.random() < 0.7) else \
             'peripheral_1.drug_concentration Sigma base %d'
         m.set_dim_names([stem % i for i in rng.permutation(m.n_dim())])
         st.dim_reset_pending = False
@@ -283,7 +287,7 @@ def pop_op(rng, st, op):
             raise CovariateNames('set %r, published %r' % (want, got))
         return 'set_covariate_names(custom)'
     if op == 'set_parameter_names':
-        if rng.random() < 0.3:
+        if forced is None and rng.random() < 0.3:
             m.set_parameter_names(None)
             return 'set_parameter_names(reset)'
         before = list(names)
@@ -490,6 +494,12 @@ def pop_random_case(ctx, rng, idx):
     reduced = rng.random() < 0.5
     ops = [POP_OPS[int(rng.integers(len(POP_OPS)))]
            for _ in range(int(rng.integers(1, 9)))]
+    if idx % 8 == 5:
+        # names longer than 50 characters, some parameters fixed, the free
+        # ones renamed: the fixed ones keep the names they were fixed under
+        reduced = True
+        ops = ['set_dim_names_long', 'fix',
+               'set_parameter_names_custom'] + ops[:4]
     # sub-models hidden behind wrappers (nested composites, reduced models)
     nest = GP.random_nest(rng) if idx % 2 == 0 else None
     ctx.case(('+'.join(GP.leaf_code(l) for l in leaves), reduced,
@@ -1066,7 +1076,15 @@ def controller_case(ctx, rng, idx):
            for _ in range(n_out)]
     n_ids = int(rng.integers(1, 4))
     rows = []
+    # (one individual may have lost every sample: it is in the dataset with
+    # a missing value and stays an individual of the population)
+    lost = int(rng.integers(n_ids)) if (
+        n_ids >= 2 and rng.random() < 0.25) else None
     for i in range(n_ids):
+        if i == lost:
+            rows.append({'ID': i + 1, 'Time': 1.5, 'Observable': 'Out 1',
+                         'Value': np.nan})
+            continue
         for o in range(n_out):
             for tt in np.sort(rng.choice(GL.POOL[1:], size=2,
                                          replace=False)):
@@ -1075,7 +1093,8 @@ def controller_case(ctx, rng, idx):
                              'Value': float(rng.uniform(1, 4))})
     data = pd.DataFrame(rows)
     feats = {'object': 'ProblemModellingController', 'n_outputs': n_out,
-             'error_models': ems, 'n_ids': n_ids}
+             'error_models': ems, 'n_ids': n_ids,
+             'individual_without_measurements': lost is not None}
     pop = bool(rng.integers(2))
     ctx.case(('controller', n_out, tuple(e[:3] for e in ems), n_ids, pop),
              True, sample=dict(feats, population=pop))
@@ -1283,7 +1302,84 @@ def filter_posterior_case(ctx, rng, idx):
         ctx.violation_exc('evaluation_raises', e, {'case': feats}, feats)
 
 
+def constructor_names_case(ctx, rng, idx):
+    """names given to the constructors (dim_names, cov_names) are what the
+    setters would have set: a model built with names equals, name for name
+    and count for count, a twin built without them and named afterwards"""
+    kind = 'GLTPH'[idx % 5]
+    n_dim = int(rng.integers(1, 4))
+    n_ids = int(rng.integers(1, 4))
+    n_cov = int(rng.integers(0, 3))
+    centered = bool(rng.integers(2))
+    dims = ['dim %s' % c for c in rng.permutation(list('abcdefg'))[:n_dim]]
+    covs = ['cov %s' % c for c in rng.permutation(list('uvwxyz'))[:n_cov]]
+    wrap_names = bool(rng.integers(2))
+    feats = {'family': 'constructor_names', 'kind': kind, 'n_dim': n_dim,
+             'n_cov': n_cov, 'names_to_wrapper': wrap_names}
+    ctx.case(('constructor_names', kind, n_dim, n_cov, wrap_names), True,
+             sample=dict(feats, dim_names=dims, cov_names=covs))
+
+    def base(names):
+        kw = {} if names is None else {'dim_names': list(names)}
+        if kind == 'G':
+            return chi.GaussianModel(n_dim=n_dim, centered=centered, **kw)
+        if kind == 'L':
+            return chi.LogNormalModel(n_dim=n_dim, centered=centered, **kw)
+        if kind == 'T':
+            return chi.TruncatedGaussianModel(n_dim=n_dim, **kw)
+        if kind == 'P':
+            return chi.PooledModel(n_dim=n_dim, **kw)
+        return chi.HeterogeneousModel(n_dim=n_dim, n_ids=n_ids, **kw)
+
+    try:
+        if n_cov:
+            if wrap_names:
+                a = chi.CovariatePopulationModel(
+                    base(None), chi.LinearCovariateModel(
+                        n_cov=n_cov, cov_names=list(covs)),
+                    dim_names=list(dims))
+            else:
+                a = chi.CovariatePopulationModel(
+                    base(dims), chi.LinearCovariateModel(
+                        n_cov=n_cov, cov_names=list(covs)))
+            b = chi.CovariatePopulationModel(
+                base(None), chi.LinearCovariateModel(n_cov=n_cov))
+            b.set_dim_names(list(dims))
+            b.set_covariate_names(list(covs))
+        else:
+            a = base(dims)
+            b = base(None)
+            b.set_dim_names(list(dims))
+        for m in (a, b):
+            m.set_n_ids(n_ids)
+        ctx.count('reconfiguration_steps')
+        ctx.count('invariant_evaluations')
+        prob = []
+        for acc in ('get_dim_names', 'get_covariate_names',
+                    'get_parameter_names', 'n_parameters', 'n_dim',
+                    'n_covariates'):
+            va, vb = getattr(a, acc)(), getattr(b, acc)()
+            if va != vb:
+                prob.append('%s: constructor %r, setters %r' % (acc, va, vb))
+        if list(a.get_dim_names()) != list(dims):
+            prob.append('dimension names %r, given %r' % (
+                a.get_dim_names(), dims))
+        if n_cov and list(a.get_covariate_names()) != list(covs):
+            prob.append('covariate names %r, given %r' % (
+                a.get_covariate_names(), covs))
+        if len(a.get_parameter_names()) != a.n_parameters():
+            prob.append('names / count')
+    except Exception as e:      # noqa
+        ctx.violation_exc('accessor_raises', e, {'case': feats}, feats)
+        return
+    if prob:
+        _bad(ctx, 'constructor_names', {'problems': prob, 'case': feats},
+             feats)
+
+
 FAMILIES = [
+    Family('constructor_names', constructor_names_case, quick=120,
+           thorough=1200),
     Family('filter_posterior', filter_posterior_case, quick=150,
            thorough=1500),
     Family('pop_random', pop_random_case, quick=1500, thorough=25000),
